@@ -144,6 +144,9 @@ def check(ctx):
         ctx.rule(r, t)
     ctx.trust("external summary table sa/tables.py ROUTES")
     xo, xtable, xdetails, plain = xopen_table(repo)
+    if not xtable:
+        raise AnalysisError("util.xopen no longer selects its opener with `if str(path).endswith(<suffix>)` branches: the suffix table "
+                            "cannot be read from the code; SIB-10 / TNT-route need re-confirmation")
     want = {".bz2": "bz2.open", ".gz": "gzip.open", ".xz": "lzma.open"}
     ctx.ob("SIB-10", xo, f"suffix table {xtable}", xo.node, xtable == want,
            "xopen maps .bz2/.gz/.xz to the matching stdlib opener" if xtable == want else
